@@ -1,7 +1,7 @@
 (* C13 property theorems.  Nothing but statements closed by `exact`, a pin, and
    Print Assumptions.  The driver parses this file's output. *)
 From ZV.Common Require Import Base.
-From ZV.C13 Require Import Model ModelIO ModelReader ModelRun ProofsLeb ProofsZigzag ProofsSeq ProofsIO ProofsReader.
+From ZV.C13 Require Import Model ModelIO ModelReader ModelTypes ModelVersioned ModelWriter ModelRangeWriter ModelMmapZc ModelRun ProofsLeb ProofsZigzag ProofsSeq ProofsIO ProofsReader ProofsTypes ProofsVersioned ProofsWriter ProofsStack ProofsRangeWriter ProofsMmapZc.
 Open Scope N_scope.
 
 (* decode (encode v ++ rest) = (v, |encode v|): for every u64 and every trailing bytes *)
@@ -197,3 +197,198 @@ Theorem zc_reads_concat :
                 zc_stream data st = concat chs ++ zc_stream data st'.
 Proof. exact zc_reads_concat_proof. Qed.
 Print Assumptions zc_reads_concat.
+
+(* the serialisable types as one universe of type codes (fixed-width integers, bool, varint, strings, unit,
+   Option, Box, Rc/Arc, Vec / sets / maps, arrays, tuples, Result, metadata wrapper, arbitrarily nested):
+   every value of every type decodes to itself from its encoding followed by any bytes, consuming exactly
+   the encoding - proved once, by induction on the type code *)
+Theorem types_law :
+  forall t v rest, wt t v -> dec t (enc t v ++ rest) = Some (v, nlen (enc t v)).
+Proof. exact types_law_proof. Qed.
+Check types_law :
+  forall t v rest, wt t v -> dec t (enc t v ++ rest) = Some (v, nlen (enc t v)).
+Print Assumptions types_law.
+
+(* consecutive encodings concatenate and read back in order *)
+Theorem types_concat_law :
+  forall t vs rest, Forall (wt t) vs ->
+    dec_many (dec t) (length vs) (flat_map (enc t) vs ++ rest) = Some (vs, nlen (flat_map (enc t) vs)).
+Proof. exact types_concat_law_proof. Qed.
+Check types_concat_law :
+  forall t vs rest, Forall (wt t) vs ->
+    dec_many (dec t) (length vs) (flat_map (enc t) vs ++ rest) = Some (vs, nlen (flat_map (enc t) vs)).
+Print Assumptions types_concat_law.
+
+(* versioned records, components only: for EVERY schema (plain and versioned fields of any types), every
+   version `cur` of the writing manager and every reading version `rv`: plain fields come back, a versioned
+   field comes back iff both versions are >= its `since` (otherwise it is skipped / absent), and exactly the
+   record's bytes are consumed *)
+Theorem record_fields_law :
+  forall cs vs cur rv rest, wt_comps cs vs ->
+    dec_comps rv cs (enc_comps cur cs vs ++ rest)
+    = Some (expected cur rv cs vs, nlen (enc_comps cur cs vs)).
+Proof. exact record_fields_law_proof. Qed.
+Check record_fields_law :
+  forall cs vs cur rv rest, wt_comps cs vs ->
+    dec_comps rv cs (enc_comps cur cs vs ++ rest)
+    = Some (expected cur rv cs vs, nlen (enc_comps cur cs vs)).
+Print Assumptions record_fields_law.
+
+(* serialize_versioned by a type at version `cur` (8-bit major / minor), deserialize_versioned by a type at
+   ANY version `rcur`: the record as the writer's version defines it, and exactly its bytes *)
+Theorem versioned_record_law :
+  forall cs vs cur rcur rest, narrow cur -> wt_comps cs vs ->
+    dec_versioned rcur cs (enc_versioned cur cs vs ++ rest)
+    = Some (expected cur cur cs vs, nlen (enc_versioned cur cs vs)).
+Proof. exact versioned_record_law_proof. Qed.
+Check versioned_record_law :
+  forall cs vs cur rcur rest, narrow cur -> wt_comps cs vs ->
+    dec_versioned rcur cs (enc_versioned cur cs vs ++ rest)
+    = Some (expected cur cur cs vs, nlen (enc_versioned cur cs vs)).
+Print Assumptions versioned_record_law.
+
+(* VersionedSerializer::deserialize_from_bytes, every configuration, every (writer version, reader version):
+   whatever it accepts is the record ... *)
+Theorem vs_accepted_is_record :
+  forall cfg min_sup cs vs cur rcur rest r, narrow cur -> wt_comps cs vs ->
+    vs_deser cfg min_sup rcur cs (enc_versioned cur cs vs ++ rest) = Some r ->
+    r = expected cur cur cs vs.
+Proof. exact vs_accepted_is_record_proof. Qed.
+Check vs_accepted_is_record :
+  forall cfg min_sup cs vs cur rcur rest r, narrow cur -> wt_comps cs vs ->
+    vs_deser cfg min_sup rcur cs (enc_versioned cur cs vs ++ rest) = Some r ->
+    r = expected cur cur cs vs.
+Print Assumptions vs_accepted_is_record.
+
+(* ... and its own version is accepted under every configuration *)
+Theorem vs_same_version_accepts :
+  forall cfg min_sup cs vs cur rest, narrow cur -> wt_comps cs vs -> ver_le min_sup cur = true ->
+    vs_deser cfg min_sup cur cs (enc_versioned cur cs vs ++ rest) = Some (expected cur cur cs vs).
+Proof. exact vs_same_version_accepts_proof. Qed.
+Check vs_same_version_accepts :
+  forall cfg min_sup cs vs cur rest, narrow cur -> wt_comps cs vs -> ver_le min_sup cur = true ->
+    vs_deser cfg min_sup cur cs (enc_versioned cur cs vs ++ rest) = Some (expected cur cur cs vs).
+Print Assumptions vs_same_version_accepts.
+
+(* StreamBufferedWriter (zc = false) and ZeroCopyWriter (zc = true): for every buffer capacity >= 1, every bulk
+   threshold, every inner writer that takes at most `chunk` bytes per call, and EVERY history of write /
+   write_all / flush / write_byte_fast / direct writes after a flush / zc_write+commit / zc_ensure_write that
+   does not end in an error: what reached the destination followed by what is still buffered is what was there
+   before followed by exactly the bytes each operation reported as accepted, in order *)
+Theorem writers_concat :
+  forall chunk cap bulk zc, 0 < cap ->
+  forall ops st outs st',
+    w_run chunk cap bulk zc ops st = Some (outs, st') ->
+    w_stream st' = w_stream st ++ w_all_accepted ops outs.
+Proof. exact writers_concat_proof. Qed.
+Check writers_concat :
+  forall chunk cap bulk zc, 0 < cap ->
+  forall ops st outs st',
+    w_run chunk cap bulk zc ops st = Some (outs, st') ->
+    w_stream st' = w_stream st ++ w_all_accepted ops outs.
+Print Assumptions writers_concat.
+
+(* ... so after a flush / into_inner the destination holds exactly the accepted bytes *)
+Theorem writers_flushed :
+  forall chunk cap bulk zc, 0 < cap ->
+  forall ops outs st',
+    w_run chunk cap bulk zc ops {| w_dest := []; w_buf := [] |} = Some (outs, st') ->
+    w_dest (w_flush st') = w_all_accepted ops outs.
+Proof. exact writers_flushed_proof. Qed.
+Check writers_flushed :
+  forall chunk cap bulk zc, 0 < cap ->
+  forall ops outs st',
+    w_run chunk cap bulk zc ops {| w_dest := []; w_buf := [] |} = Some (outs, st') ->
+    w_dest (w_flush st') = w_all_accepted ops outs.
+Print Assumptions writers_flushed.
+
+(* readers stacked on readers: a RangeReader over a cursor, positioned `off` bytes into its range, answers every
+   `read(n)` exactly like a cursor over the range's bytes (`range_slice`) at offset `off`: same bytes, same new
+   offset - for every data, range (also one reaching beyond the data), request size and offset.  A reader
+   stacked on it (StreamBufferedReader<RangeReader<Cursor>>) is that reader's model over the slice *)
+Theorem range_read_is_cursor_read :
+  forall data r_start r_end n off,
+    rng_read data 0 r_end n {| r_ipos := r_start + off; r_cur := r_start + off |}
+    = (Some (fst (inner_read (range_slice data r_start r_end) 0 off n)),
+       {| r_ipos := r_start + snd (inner_read (range_slice data r_start r_end) 0 off n);
+          r_cur := r_start + snd (inner_read (range_slice data r_start r_end) 0 off n) |}).
+Proof. exact range_read_is_cursor_read_proof. Qed.
+Check range_read_is_cursor_read :
+  forall data r_start r_end n off,
+    rng_read data 0 r_end n {| r_ipos := r_start + off; r_cur := r_start + off |}
+    = (Some (fst (inner_read (range_slice data r_start r_end) 0 off n)),
+       {| r_ipos := r_start + snd (inner_read (range_slice data r_start r_end) 0 off n);
+          r_cur := r_start + snd (inner_read (range_slice data r_start r_end) 0 off n) |}).
+Print Assumptions range_read_is_cursor_read.
+
+(* ... whose stream is the range's bytes *)
+Theorem sbr_over_range_stream :
+  forall data r_start r_end cap,
+    sbr_stream (range_slice data r_start r_end) (sbr_init cap)
+    = take (r_end - r_start) (drop (N.min r_start (nlen data)) data).
+Proof. exact sbr_over_range_stream_proof. Qed.
+Check sbr_over_range_stream :
+  forall data r_start r_end cap,
+    sbr_stream (range_slice data r_start r_end) (sbr_init cap)
+    = take (r_end - r_start) (drop (N.min r_start (nlen data)) data).
+Print Assumptions sbr_over_range_stream.
+
+(* RangeWriter: for every range, every state inside it and EVERY history of writes, flushes and seeks
+   (Start / Current / End, any offsets): every write it issues to the inner writer lies inside [start, end),
+   and it stays inside its range with the inner position = its own position *)
+Theorem range_writer_confined :
+  forall r_start r_end, r_start <= r_end ->
+  forall ops st outs st' ws, rw_inv r_start r_end st ->
+    rw_run r_start r_end ops st = (outs, st', ws) ->
+    rw_inv r_start r_end st' /\ Forall (inside r_start r_end) ws.
+Proof. exact range_writer_confined_proof. Qed.
+Check range_writer_confined :
+  forall r_start r_end, r_start <= r_end ->
+  forall ops st outs st' ws, rw_inv r_start r_end st ->
+    rw_run r_start r_end ops st = (outs, st', ws) ->
+    rw_inv r_start r_end st' /\ Forall (inside r_start r_end) ws.
+Print Assumptions range_writer_confined.
+
+(* without seeks the inner writes follow one another from the current position, carry exactly the bytes reported
+   as accepted, and the position advances by their number *)
+Theorem range_writer_contiguous :
+  forall r_start r_end ops st outs st' ws,
+    forallb is_write ops = true -> x_ipos st = x_cur st ->
+    rw_run r_start r_end ops st = (outs, st', ws) ->
+    contiguous (x_cur st) ws /\ concat (map snd ws) = rw_accepted ops outs /\
+    x_cur st' = x_cur st + nlen (rw_accepted ops outs) /\ x_ipos st' = x_cur st'.
+Proof. exact range_writer_contiguous_proof. Qed.
+Check range_writer_contiguous :
+  forall r_start r_end ops st outs st' ws,
+    forallb is_write ops = true -> x_ipos st = x_cur st ->
+    rw_run r_start r_end ops st = (outs, st', ws) ->
+    contiguous (x_cur st) ws /\ concat (map snd ws) = rw_accepted ops outs /\
+    x_cur st' = x_cur st + nlen (rw_accepted ops outs) /\ x_ipos st' = x_cur st'.
+Print Assumptions range_writer_contiguous.
+
+(* MmapZeroCopyReader: for every mapped content, every position inside it and every history of read / read_exact /
+   zc_read (peek) / zc_read+zc_advance / zc_advance / zc_ensure / position operations without an error outcome: the
+   chunks returned (and skipped) concatenate to the mapped bytes from the starting position, followed by what is
+   still ahead *)
+Theorem mmap_zc_reads_concat :
+  forall (data : list N) (ops : list (N * Z)) (pos : N) (os : list obs) (pos' : N),
+    pos <= nlen data -> forallb (fun p => mz_streaming (fst p)) ops = true ->
+    run_ops (mz_op data) ops pos = (os, pos') -> ~ In OErr os ->
+    exists chs, explains ops os chs /\ mz_stream data pos = concat chs ++ mz_stream data pos'.
+Proof. exact mz_reads_concat_proof. Qed.
+Check mmap_zc_reads_concat :
+  forall (data : list N) (ops : list (N * Z)) (pos : N) (os : list obs) (pos' : N),
+    pos <= nlen data -> forallb (fun p => mz_streaming (fst p)) ops = true ->
+    run_ops (mz_op data) ops pos = (os, pos') -> ~ In OErr os ->
+    exists chs, explains ops os chs /\ mz_stream data pos = concat chs ++ mz_stream data pos'.
+Print Assumptions mmap_zc_reads_concat.
+
+(* set_position(p) is accepted only inside the mapping and the stream continues at p *)
+Theorem mmap_zc_set_position :
+  forall (data : list N) a pos p pos',
+    mz_op data 9 a pos = (OPos p, pos') -> pos' = p /\ p <= nlen data /\ mz_stream data pos' = drop p data.
+Proof. exact mz_seek_ok. Qed.
+Check mmap_zc_set_position :
+  forall (data : list N) a pos p pos',
+    mz_op data 9 a pos = (OPos p, pos') -> pos' = p /\ p <= nlen data /\ mz_stream data pos' = drop p data.
+Print Assumptions mmap_zc_set_position.
